@@ -1,5 +1,6 @@
 import sys
 import os
+import collections
 
 from ..helpers.extended_json import ejson
 
@@ -29,7 +30,11 @@ def stream(file=sys.stdout):
         write(package.pkg.descriptor)
         yield package.pkg
         for res in package:
-            yield res_writer(res)
+            writer = res_writer(res)
+            yield writer
+            # whatever comes next may have stopped reading this resource before its end:
+            # what is streamed is all of it
+            collections.deque(writer, maxlen=0)
             file.write('\n')
         file.close()
         if filename:
